@@ -102,7 +102,10 @@ def run_case(ctx, rng, index, casedir):
     by_chrom = rng.random() < 0.5
     with_seq = rng.random() < 0.3
     sit["by_chrom_runs" if by_chrom else "complete_runs"] += 1
-    full = OC.run_order(gpath, os.path.join(casedir, "full"), order, by_chrom, with_seq)
+    squat = [c for c in bad if "/" not in c] if rng.random() < 0.08 else []
+    if squat:
+        sit["squatted_skipped_paths"] += 1
+    full = OC.run_order(gpath, os.path.join(casedir, "full"), order, by_chrom, with_seq, squat=squat)
     reduced_order = [c for c in order if c in good]
     wit = {"order": order, "non_chain": {c: infos[c]["reason"] for c in bad}, "by_chrom": by_chrom,
            "outcome": full.outcome, "defects": sorted(set(defects.values()))}
